@@ -12,7 +12,8 @@ def run_scripts(ctx, steps, timeout=1500, lz4=False):
     binp = ctx.go_build("mserve")
     mism, summary = [], None
     # every script twice: plain, and with lz4 negotiated by the well-formed connect request (frames inside the lz4 stream)
-    for extra in ([], ["-lz4"]) if lz4 else ([],):
+    # ... and a third time with the peer not reading, while a handler streams to it, when the hostile input arrives
+    for extra in ([], ["-lz4"], ["-stall"]) if lz4 else ([],):
         p = ctx.run([binp, "-in", r.outfile, "-workers", "8"] + extra, timeout=timeout)
         if p.returncode != 0:
             raise Broken("mserve failed: %s" % p.stderr[-2000:])
@@ -23,14 +24,14 @@ def run_scripts(ctx, steps, timeout=1500, lz4=False):
                 one = d["summary"]
             else:
                 if extra:
-                    d["sig"] = d.get("sig", "") + "(lz4)"
+                    d["sig"] = d.get("sig", "") + "(%s)" % extra[0][1:]
                 mism.append(d)
         if not one or one["scripts"] == 0:
             raise Broken("mserve played no scripts")
         if summary is None:
             summary = one
         else:
-            summary["scripts_lz4"] = one["scripts"]
+            summary["scripts_" + extra[0][1:]] = one["scripts"]
     samples = []
     for rec in tlc.payload_lines(r.outfile):
         samples.append([{k: v for k, v in st.items() if k != "pred"} | {"alive_after": st["pred"]["alive"]} for st in rec["script"]])
